@@ -194,11 +194,11 @@ PROPS = {
                       "directories pre-populated with arbitrary near-miss names — every call under catch_unwind, a later record must still be accepted; recursive logging "
                       "from Display in a child process under a watchdog.",
         "level_note": "PARTIAL: a theorem cannot show the absence of panics in unmodelled code (std, chrono, regex, OS); that part is exploration. Five panics found and "
-                      "repaired (fix commits 9620a31, 0f937be, 9c1a91c, 6ba14c4, index overflow); one hang is a known finding (recursion + buffered stdout). "
+                      "repaired (fix commits 9620a31, 0f937be, 9c1a91c, 6ba14c4, index overflow); one hang repaired, too (fix 54ef5cd: recursion + buffered stdout). "
                       "Out of the random domain (documented): suffix 'gz', exhausted index space (>= 2^32-1).",
         "correspondence": "Spec.route/enabledQuery/parse vs the real logger on nasty inputs; robustness histories: only 'the call returns' is predicted",
         "rule": "half records/spec strings (22 nasty targets incl. 5000-char and 100 KB messages, arbitrary Unicode spec strings), half file-name configurations x "
-                "directory contents (24 nasty name fragments) x histories with rotations and restarts; 24 recursion runs (nesting depth 1, 2, 3, 5); non-trivial = all executed cases",
+                "directory contents (24 nasty name fragments) x histories with rotations and restarts; 32 recursion runs (nesting depth 1, 2, 3, 5; file, stdout and stderr, direct, buffered and async); non-trivial = all executed cases",
         "trusted": ["catch_unwind observes every panic of the calling thread", "watchdog 4 s + 8 s re-run for hang detection"],
         "shards": 8,
     },
